@@ -91,14 +91,17 @@ let sizes_of_spec (spec : string) (n : int) : coq_N list =
     List.map (fun x -> n_of_int (max 1 (int_of_string x))) (List.filter (fun x -> x <> "z") (String.split_on_char ',' spec))
 
 (* a spec with "z" entries: the chunk list itself, with an EMPTY chunk for every empty read the Go-side
-   transport answers while data remains (the models' read1 returns ([], None) on an empty chunk, like (0, nil)) *)
-let chunks_of_spec (spec : string) (data : 'a list) : 'a list list option =
+   transport answers (the models' read1 returns ([], None) on an empty chunk, like (0, nil)) *)
+(* [trailing]: the "z" entries still listed when the data is exhausted are idle reads between the last byte and
+   the end of the stream (one empty chunk each); false for a transport that returns its last bytes TOGETHER with
+   the final error ("eofdata"/"faildata"): nothing is read after that *)
+let chunks_of_spec ?(trailing = true) (spec : string) (data : 'a list) : 'a list list option =
   if spec = "-" || spec.[0] = 'r' || not (List.mem "z" (String.split_on_char ',' spec)) then None
   else begin
     let rec take k l = if k <= 0 then [] else match l with [] -> [] | x :: r -> x :: take (k-1) r in
     let rec drop k l = if k <= 0 then l else match l with [] -> [] | _ :: r -> drop (k-1) r in
     let rec go toks data = match data with
-      | [] -> []
+      | [] -> if trailing then List.filter_map (fun t -> if t = "z" then Some [] else None) toks else []
       | _ -> (match toks with
           | [] -> [data]
           | "z" :: r -> [] :: go r data
